@@ -4171,6 +4171,37 @@ func ruleAncOnce(prop string) ruleFn {
 			return
 		}
 		isVisitedLookup := ancVisitedLookup(walk)
+		// a location enters the visited set on the way back: if it were in the set while its own ancestors are being
+		// walked, the silent skip would swallow the back edge of a parent loop before the path set can report it
+		early := ""
+		allInstrs(walk, func(in ssa.Instruction) {
+			mu, ok := in.(*ssa.MapUpdate)
+			if !ok || early != "" {
+				return
+			}
+			// the set that the visit's guard looks into
+			guardsVisit := controlDependsOn(walk, visit, func(v ssa.Value) bool {
+				lk, ok := v.(*ssa.Lookup)
+				return ok && isVisitedLookup(v) && resolveSpill(lk.X) == resolveSpill(mu.Map)
+			})
+			if !guardsVisit {
+				return
+			}
+			if h, _ := reach(walk, in, func(x ssa.Instruction) bool {
+				if _, isDefer := x.(*ssa.Defer); isDefer {
+					return false
+				}
+				c := callOf(x)
+				return c != nil && c.StaticCallee() == walk
+			}, nil, nil); h != nil {
+				early = w.PosOf(in)
+			}
+		})
+		if early != "" {
+			r.violation("ANC-ONCE", key+" late", early, "a location is entered into the visited set before its ancestors are walked: the back edge of a parent loop then finds it `visited` and is skipped silently instead of being reported as a loop")
+		} else {
+			r.ok("ANC-ONCE", key+" late", w.PosOf(visit), "a location enters the visited set only after its ancestors were walked")
+		}
 		if controlDependsOn(walk, visit, isVisitedLookup) {
 			r.ok("ANC-ONCE", key, w.PosOf(visit), "the visit is skipped for a location that is in the visited set")
 		} else {
@@ -5500,4 +5531,124 @@ func sliceHolds(v ssa.Value, pred func(ssa.Value) bool) bool {
 		}
 	}
 	return held
+}
+
+// PENDING-PAIR (C11, C13): every counted request is un-counted.
+func rulePendingPair(prop string) ruleFn {
+	return func(w *World, r *Report) {
+		r.Rule("PENDING-PAIR", "in HTTPService.ServeHTTP every path from the increment of the pending-request count (incPending(true)) to a return passes the registration of a deferred function that decrements it (or a direct incPending(false)).  The listener refuses new connections while the count is at its limit; a path that returns without un-counting — an unparsable request, say — leaks one unit per request, and after `max` such requests no client of any location is served again", 1)
+		fn := w.Method("service", "HTTPService", "ServeHTTP")
+		inc := w.Method("service", "HTTPService", "incPending")
+		key := "fn=" + fname(fn)
+		isIncArg := func(in ssa.Instruction, want bool) bool {
+			c := callOf(in)
+			if c == nil || c.StaticCallee() != inc || len(c.Args) < 2 {
+				return false
+			}
+			b, ok := isConstBool(c.Args[len(c.Args)-1])
+			return ok && b == want
+		}
+		isUp := func(in ssa.Instruction) bool {
+			if _, isDefer := in.(*ssa.Defer); isDefer {
+				return false
+			}
+			return isIncArg(in, true)
+		}
+		isDown := func(in ssa.Instruction) bool {
+			if d, isDefer := in.(*ssa.Defer); isDefer {
+				if isIncArg(in, false) {
+					return true
+				}
+				// a deferred closure that decrements
+				if mc, ok := d.Call.Value.(*ssa.MakeClosure); ok {
+					if g, ok := mc.Fn.(*ssa.Function); ok {
+						found := false
+						allInstrs(g, func(x ssa.Instruction) {
+							if isIncArg(x, false) {
+								found = true
+							}
+						})
+						return found
+					}
+				}
+				return false
+			}
+			return isIncArg(in, false)
+		}
+		n, misses := mustFollow(fn, isUp, isDown)
+		switch {
+		case n == 0:
+			r.exempt("PENDING-PAIR", key, w.Pos(fn.Pos()), "ServeHTTP does not count pending requests: shape not recognised, not decided")
+		case len(misses) > 0:
+			r.violation("PENDING-PAIR", key, w.PosOf(misses[0].Exit), "a request is counted as pending and this return is reachable without un-counting it", blockPathString(w, misses[0].Path)...)
+		default:
+			r.ok("PENDING-PAIR", key, w.Pos(fn.Pos()), "every counted request is un-counted on every way out")
+		}
+	}
+}
+
+// CTX-ENTRY (C09): an operation runs in the location it was sent to.
+func ruleCtxEntry(w *World, r *Report) {
+	r.Rule("CTX-ENTRY", "every exported method of core.Location that points the request context at its location (Context.SetLoc with the receiver) does so unconditionally and first: the call dominates every call of the method into the State, so the hooks (which ask the context for `the current location`, e.g. to key a cron job) and the scripts run for the location the operation was addressed to.  A SetLoc that only happens `if the context has no location yet` leaves a context that was last used for another location pointing there: the scheduled rule added to A is registered as a job of B and replaces B's job of the same id", 8)
+	a := newLocAnchors(w)
+	setLoc := w.Method("core", "Context", "SetLoc")
+	for _, m := range a.exportedLocationMethods() {
+		recv := ssa.Value(m.Params[0])
+		var sets []ssa.Instruction
+		allInstrs(m, func(in ssa.Instruction) {
+			if c := callOf(in); c != nil && c.StaticCallee() == setLoc && len(c.Args) == 2 && valueIs(c.Args[1], recv) {
+				if _, isDefer := in.(*ssa.Defer); !isDefer {
+					sets = append(sets, in)
+				}
+			}
+		})
+		if len(sets) == 0 {
+			continue
+		}
+		key := "entry=" + fname(m)
+		var stateCalls []ssa.Instruction
+		allInstrs(m, func(in ssa.Instruction) {
+			c := callOf(in)
+			if c == nil || !c.IsInvoke() {
+				return
+			}
+			if nn := namedOf(c.Value.Type()); nn != nil && typeKey(nn) == "core.State" {
+				stateCalls = append(stateCalls, in)
+			}
+		})
+		bad := ""
+		for _, sc := range stateCalls {
+			dom := false
+			for _, s := range sets {
+				if instrDominates(s, sc) {
+					dom = true
+				}
+			}
+			if !dom {
+				bad = w.PosOf(sc)
+			}
+		}
+		// also: some SetLoc is executed on every path (it dominates every return)
+		if bad == "" {
+			allInstrs(m, func(in ssa.Instruction) {
+				if _, ok := in.(*ssa.Return); !ok {
+					return
+				}
+				dom := false
+				for _, s := range sets {
+					if instrDominates(s, in) {
+						dom = true
+					}
+				}
+				if !dom && bad == "" {
+					bad = w.PosOf(in)
+				}
+			})
+		}
+		if bad != "" {
+			r.violation("CTX-ENTRY", key, w.PosOf(sets[0]), "the context is pointed at the receiving location only on some paths ("+bad+" is reached without it)")
+		} else {
+			r.ok("CTX-ENTRY", key, w.PosOf(sets[0]), "the context is pointed at the receiving location first, unconditionally")
+		}
+	}
 }
